@@ -952,7 +952,21 @@ pub fn o_replies(plan: &Plan, out: &Outcome, vs: &mut Vec<Violation>) {
                 // rejected: the handshake unit ends the connection, so gating did not decode it.
                 // Decode it here from everything flushed.
                 match dec::decode_reply(&w.sbytes[w.dec_pos..w.flushed], dec::Gr::Text) {
-                    Ok((d, _)) => match &d.resp {
+                    Ok((d, _)) => {
+                        let exp = w.unit_last_seq[0].wrapping_add(1);
+                        if d.seqs.first() != Some(&exp) {
+                            vs.push(v(
+                                "seq-ids",
+                                "reply to a rejected handshake",
+                                format!(
+                                    "the ERR for a rejected handshake has sequence id {:?}, expected {} (handshake response had {})",
+                                    d.seqs.first(),
+                                    exp,
+                                    w.unit_last_seq[0]
+                                ),
+                            ));
+                        }
+                        match &d.resp {
                         DecResp::Units(u) if u.len() == 1 => match &u[0] {
                             DecUnit::Err(e) if e.code == 1045 && &e.state == b"28000" => {}
                             o => vs.push(v(
@@ -962,7 +976,8 @@ pub fn o_replies(plan: &Plan, out: &Outcome, vs: &mut Vec<Violation>) {
                             )),
                         },
                         o => vs.push(v("auth-reply", "not ERR 1045/28000", format!("{:?}", o))),
-                    },
+                        }
+                    }
                     Err(e) => vs.push(v(
                         "auth-reply",
                         "missing",
